@@ -3,7 +3,7 @@ use crate::util::Rng;
 
 const MODS: [&str; 12] = ["alpha", "beta", "rc", "pre", "pl", "nb", "ALPHA", "Beta", "RC", "Pre", "PL", "NB"];
 const PUNCT: [&str; 12] = ["+", "~", "-", ":", "/", " ", "@", "!", ",", "=", "*", "^"];
-const UNI: [&str; 6] = ["é", "ß", "Ω", "日", "💖", "\u{85}"];
+const UNI: [&str; 14] = ["é", "ß", "Ω", "日", "💖", "\u{85}", "²", "½", "٣", "３", "Ａ", "ǅ", "Ⅷ", "\u{660}"];
 
 fn digits(rng: &mut Rng, wild: bool) -> String {
     let len = match rng.below(10) {
